@@ -151,10 +151,10 @@ class ProcessExecutor:
     def submit(self, fn: Callable, /, *args, **kwargs) -> Future:
         """Schedule the given fn to be called with the given *args and
         **kwargs, and return a Future that will be updated with the
-        outcome of function call."""
+        outcome of function call. The call is started by the next
+        wait() or _start_processes()."""
         future = Future()
         self._pending_future_to_thunk[future] = functools.partial(fn, *args, **kwargs)
-        self._start_processes()
         return future
 
     def cancel(self) -> None:
@@ -369,6 +369,9 @@ class ProcessRunner(Runner, ABC):
             log_queue=self.log_queue,
         )
         self.future_to_task[future] = task
+        # Only start processes once the future is tracked, so that a
+        # started task is never lost if we are interrupted here.
+        self.executor._start_processes()
 
     def wait(self, *, timeout_seconds: Optional[float]) -> Iterator[tuple[Task, ResultMeta | BaseException]]:
         self._consume_log_queue()
